@@ -5,6 +5,8 @@
   `sort_epairs`, the update of X/AX/BX/D/AD/BD, the B-orthonormality guard `max |X' BX - I| < sqrt(eps)` in front of
   `m_info = Success` (threshold handed over in the request), `m_info` (reset at the top of `compute`), the accessors (`eigenvectors()` = X; the
   public member `m_evectors` is reported as `coef`) — is computed by the model.
+  `hist` requests replay a whole history of public calls on ONE model object (`Lobpcg.Obj`: `setB`, `setPreconditioner`, `compute`
+  from the state the previous call left, each `compute` with its own recorded kernel outputs).
 -/
 import SpectraVerif.Driver.Util
 import SpectraVerif.Model.LOBPCG
@@ -69,6 +71,55 @@ def traced (K : Kern Float (Col Float)) (c : Cfg) (t : Float) : Nat → Nat → 
     | .stop _ _ _ => ((del :: ds).reverse, done)
     | .cont s' l' => traced K c t fuel (iter + 1) s' l' (del :: ds) (done + 1)
 
+/-- the recorded kernel outputs of ONE `compute()` call: `OX … E0 … IT cnt rec*` -/
+structure Rec where
+  OX : Option (List (Col Float))
+  E0 : Option (List Float × List (List Float))
+  its : Array ItRec
+
+def recOf (n nev : Nat) : P Rec := do
+  expect "OX"; let okX ← nat; let OX ← if okX == 1 then (do let b ← block n nev; pure (some b)) else pure none
+  expect "E0"; let okE ← nat
+  let E0 ← if okE == 1 then (do let th ← rep nev flt; let C ← coefCols nev nev; pure (some (th, C))) else pure none
+  expect "IT"; let cnt ← nat
+  let recs ← rep cnt (itRec n nev)
+  pure { OX := OX, E0 := E0, its := recs.toArray }
+
+/-- numeric kernels of one call: explicit scalar code (norm test, `std::less`, the guard) computed, inner solvers replayed from the
+    record.  The operator fields are placeholders here (`Obj.kern` / `runCase` put the problem's operators in). -/
+def numKern (n : Nat) (gthr : Float) (r : Rec) : Kern Float (Col Float) :=
+  { zeroV := ⟨Array.replicate n 0.0⟩
+    applyA := id, applyB := id, applyT := id
+    below := colBelow
+    tolL2 := fun tl m => tl * m.toFloat
+    lt := fun a b => decide (a < b)
+    orth := fun st _ _ => match st with
+      | .initX => r.OX
+      | .resid i => (r.its[i]?).bind (·.R)
+      | .dir i => (r.its[i]?).bind (·.D)
+    eig0 := fun _ _ => r.E0
+    gramSPD := fun inp => match r.its[inp.iter]? with | some x => x.gramOk | none => true
+    rr := fun inp => match r.its[inp.iter]? with | some x => x.rr | none => .threw
+    borth := gramOrthOk gthr }
+
+/-- the observable answer of one `compute()`: `o` the model's result from state `s0` with kernels `K` -/
+def answer (K : Kern Float (Col Float)) (c : Cfg) (maxit : Int) (tol : Float) (s0 : St Float (Col Float)) (o : Out Float (Col Float)) : String :=
+  -- trace (same `step`, same initial phase)
+  let t := K.tolL2 tol c.n
+  let (s1, l1, ok) := initPhase K (reset s0)
+  let maxIter := if ok then min c.n maxit.toNat else 0
+  let (dels, done) := traced K c t maxIter 0 s1 l1 [] 0
+  let delStr := String.join (dels.map (fun d => "[" ++ String.intercalate "," (d.map toString) ++ "]"))
+  let colsOf (b : List (Col Float)) : List (List Float) := b.map (fun v => v.d.toList)
+  joinSp [
+    s!"threw={if o.threw then 1 else 0}", s!"info={(info o.s).code}", s!"iters={done}", s!"dels={delStr}",
+    joinSp (s!"evals={(eigenvalues o.s).length}x1" :: (eigenvalues o.s).map cz),
+    showCols "evecs" c.n (colsOf (eigenvectors o.s)),
+    showCols "coef" 0 o.s.evecs,
+    showCols "resid" c.n (colsOf (residuals o.s)),
+    showCols "X" c.n (colsOf o.s.X),
+    "sh=1"]
+
 def runCase : P String := do
   let n ← nat; let nev ← nat; let maxit ← int; let tol ← flt
   expect "G"; let gthr ← flt        -- sqrt(NumTraits<Scalar>::epsilon()) as the real code computes it
@@ -76,46 +127,54 @@ def runCase : P String := do
   expect "B"; let wB ← nat; let rowsB ← if wB == 1 then sparse n else pure #[]
   expect "T"; let wT ← nat; let rowsT ← if wT == 1 then sparse n else pure #[]
   expect "X0"; let X0 ← block n nev
-  expect "OX"; let okX ← nat; let OX ← if okX == 1 then (do let b ← block n nev; pure (some b)) else pure none
-  expect "E0"; let okE ← nat
-  let E0 ← if okE == 1 then (do let th ← rep nev flt; let C ← coefCols nev nev; pure (some (th, C))) else pure none
-  expect "IT"; let cnt ← nat
-  let recs ← rep cnt (itRec n nev)
-  let recA := recs.toArray
+  let r ← recOf n nev
   let K : Kern Float (Col Float) :=
-    { zeroV := ⟨Array.replicate n 0.0⟩
+    { numKern n gthr r with
       applyA := spApply rowsA
       applyB := if wB == 1 then spApply rowsB else id
-      applyT := if wT == 1 then spApply rowsT else id
-      below := colBelow
-      tolL2 := fun tl m => tl * m.toFloat
-      lt := fun a b => decide (a < b)
-      orth := fun st _ _ => match st with
-        | .initX => OX
-        | .resid i => (recA[i]?).bind (·.R)
-        | .dir i => (recA[i]?).bind (·.D)
-      eig0 := fun _ _ => E0
-      gramSPD := fun inp => match recA[inp.iter]? with | some r => r.gramOk | none => true
-      rr := fun inp => match recA[inp.iter]? with | some r => r.rr | none => .threw
-      borth := gramOrthOk gthr }
+      applyT := if wT == 1 then spApply rowsT else id }
   let c : Cfg := { n := n, nev := nev }
   let s0 : St Float (Col Float) := construct X0
-  let o := compute K c maxit tol s0
-  -- trace (same `step`, same initial phase)
-  let t := K.tolL2 tol n
-  let (s1, l1, ok) := initPhase K s0
-  let maxIter := if ok then min n maxit.toNat else 0
-  let (dels, done) := traced K c t maxIter 0 s1 l1 [] 0
-  let delStr := String.join (dels.map (fun d => "[" ++ String.intercalate "," (d.map toString) ++ "]"))
-  let colsOf (b : List (Col Float)) : List (List Float) := b.map (fun v => v.d.toList)
-  pure (joinSp [
-    s!"threw={if o.threw then 1 else 0}", s!"info={(info o.s).code}", s!"iters={done}", s!"dels={delStr}",
-    joinSp (s!"evals={(eigenvalues o.s).length}x1" :: (eigenvalues o.s).map cz),
-    showCols "evecs" n (colsOf (eigenvectors o.s)),
-    showCols "coef" 0 o.s.evecs,
-    showCols "resid" n (colsOf (residuals o.s)),
-    showCols "X" n (colsOf o.s.X),
-    "sh=1"])
+  pure (answer K c maxit tol s0 (compute K c maxit tol s0))
+
+/-- the calls of a history, until the tokens run out: `SB sparse | ST sparse | C maxit tol <record>`; one answer per `C` -/
+def histLoop (n nev : Nat) (gthr : Float) : Nat → Obj Float (Col Float) → List String → P (List String)
+  | 0, _, acc => pure acc.reverse
+  | fuel + 1, o, acc => do
+    match (← get) with
+    | [] => pure acc.reverse
+    | _ =>
+      let t ← tok
+      if t == "SB" then do
+        let rows ← sparse n
+        histLoop n nev gthr fuel (o.setB (spApply rows)) acc
+      else if t == "ST" then do
+        let rows ← sparse n
+        histLoop n nev gthr fuel (o.setPreconditioner (spApply rows)) acc
+      else if t == "C" then do
+        let maxit ← int; let tol ← flt
+        let r ← recOf n nev
+        let N := numKern n gthr r
+        let c : Cfg := { n := n, nev := nev }
+        let out := o.computeOut N c maxit tol             -- from the state the previous call left, with the CURRENT operators
+        histLoop n nev gthr fuel (o.compute N c maxit tol) (answer (o.kern N) c maxit tol o.st out :: acc)
+      else failure
+
+/-- `hist n k G thr A sparse B w [sparse] T w [sparse] X0 dense OPS call*`: a whole history on ONE model object -/
+def runHist : P String := do
+  let n ← nat; let nev ← nat
+  expect "G"; let gthr ← flt
+  expect "A"; let rowsA ← sparse n
+  expect "B"; let wB ← nat; let rowsB ← if wB == 1 then sparse n else pure #[]
+  expect "T"; let wT ← nat; let rowsT ← if wT == 1 then sparse n else pure #[]
+  expect "X0"; let X0 ← block n nev
+  expect "OPS"
+  let o0 : Obj Float (Col Float) := Obj.ctor (spApply rowsA) X0
+  let o1 := if wB == 1 then o0.setB (spApply rowsB) else o0
+  let o2 := if wT == 1 then o1.setPreconditioner (spApply rowsT) else o1
+  let fuel := (← get).length + 1
+  let answers ← histLoop n nev gthr fuel o2 []
+  pure (String.intercalate " ;; " answers)
 
 def runSort : P String := do
   let m ← nat
@@ -127,6 +186,7 @@ def runSort : P String := do
 def handle : List String → Option String
   | "lobpcg" :: rest => (runCase.run rest).map (·.1)
   | "sortep" :: rest => (runSort.run rest).map (·.1)
+  | "hist" :: rest => (runHist.run rest).map (·.1)
   | _ => none
 
 end Drv.C17
